@@ -43,6 +43,19 @@ CHECKS = {
              "exhaustive carry-pattern case split, not by path enumeration.",
         technique="abstract interpretation of -O2 LLVM IR in a polynomial domain (div/mod as hash-consed atoms) + compile-time witnesses",
     ),
+    "C12": dict(
+        engine="irval", category="proof",
+        text=("Byte-address identities and extent preservation, as closed forms on an arbitrary symbolic source view (D<=2 quick, <=3 thorough): "
+              "member_cast designates base + addr(i)*sizeof(T) + offsetof(member); reinterpret_array_cast<U>() keeps every address; "
+              "reinterpret_array_cast<U>(n) adds a trailing dimension of size n over each element's bytes; static_array_cast, const_array_cast, "
+              "as_const keep layout and addresses; reference-returning element_transformed designates f's projection of the same element; "
+              "blas::real / imag / real_doubled; casts commute with rotated / sliced / strided (composition with the view algebra)."),
+        design_ref="DESIGN.md 3/C12",
+        note=IRNOTE + " Struct layouts per x86-64 ABI. Not decided: values of f(element), the element-wise conversion loops of converting "
+             "constructors (their extent provenance is R12.ctorext in the C08 fact base). real_doubled is only claimed for D=2 (its "
+             "rotated().flatted().unrotated() construction is the stated map only for matrices).",
+        technique="abstract interpretation of -O2 LLVM IR in a polynomial domain (byte-address normal forms)",
+    ),
     "C19": dict(
         engine="irval", category="proof",
         text=("All C01 obligations re-evaluated with a free symbolic first index per dimension (offset_k = f_k*stride_k), plus reindexed, "
